@@ -25,6 +25,9 @@ type Ctx struct {
 	Hung       bool
 	Tier       string
 	Replaying  bool
+	Shard      int
+	Shards     int
+	Seed       int
 }
 
 func (c *Ctx) Label(l string) {
@@ -58,8 +61,8 @@ type Prop struct {
 	Gen   func(t *rapid.T, ctx *Ctx) interface{} // draws a JSON-serialisable case
 	New   func() interface{}                     // empty case for replay decoding
 	Check func(c interface{}, ctx *Ctx) error    // the oracle; nil error = property held on this case
-	// Fixed is an optional deterministic part (bounded-exhaustive enumeration, grids) run once per
-	// check invocation in shard 0; it reports failures by returning (case, error).
+	// Fixed is an optional deterministic part (bounded-exhaustive enumeration, grids) run in every
+	// shard (it partitions its space by ctx.Shard/ctx.Shards); it reports failures through report.
 	Fixed func(ctx *Ctx, report func(c interface{}, err error))
 }
 
@@ -124,7 +127,7 @@ func TestProp(t *testing.T) {
 	out := os.Getenv("VERIF_OUT") // path prefix for stats / replay / journal of this shard
 	shard := envInt("VERIF_SHARD", 0)
 	stats := harness.NewStats(id)
-	ctx := &Ctx{Stats: stats, Tier: tier()}
+	ctx := &Ctx{Stats: stats, Tier: tier(), Shard: shard, Shards: envInt("VERIF_SHARDS", 1), Seed: envInt("VERIF_SEED", 1)}
 	var journal *os.File
 	if out != "" {
 		journal, _ = os.Create(out + ".journal")
@@ -168,7 +171,7 @@ func TestProp(t *testing.T) {
 		}
 		return js, err
 	}
-	if p.Fixed != nil && shard == 0 {
+	if p.Fixed != nil {
 		p.Fixed(ctx, func(c interface{}, err error) {
 			js, _ := json.Marshal(c)
 			if !failed {
